@@ -101,6 +101,25 @@ func RunE1(c *Ctx, prop string, obs []Ob) {
 	}
 	obs = append(obs, leafObs(prop)...)
 	obs = append(obs, e1Controls()...)
+	// functions the tables talk about are analysed modularly; every other in-module callee is a helper whose body is
+	// interpreted in place (e1_inline.go)
+	fresh := false
+	nrel := len(e.relevant)
+	for _, ob := range obs {
+		if !e.anchors[ob.Fn] {
+			e.anchors[ob.Fn] = true
+			fresh = true
+		}
+		e.addRelevant(ob.Req...)
+		e.addRelevant(ob.Req0)
+	}
+	if len(e.relevant) != nrel {
+		fresh = true
+	}
+	if fresh {
+		e.cache = map[*FuncInfo]*e1func{}
+		e.inferred, e.inferring = nil, nil
+	}
 	for _, ob := range obs {
 		evalOb(c, e, ob)
 	}
